@@ -98,7 +98,9 @@ inductive RegKind where
   deriving DecidableEq, Repr
 
 /-- the five `BTreeMap<String, _>` of `FileDbInner`, each as an association list IN ASCENDING ORDER OF THE NAMES, without
-repeated names (what `BTreeMap::keys()` iterates over; keeping the lists so is the caller's obligation) -/
+repeated names (what `BTreeMap::keys()` iterates over; keeping the lists so is the caller's obligation; the generated
+registry functions `Gen.dbMap<K>[WithParams]` of `Abyss/Gen/Registry.lean`, which are what fills the registries, keep them
+so: `Abyss/Lemmas/RegistryGenL.lean`, `openSpec_sorted`) -/
 structure DbReg (μ : Type) where
   bytes : List (String × μ)
   string : List (String × μ)
